@@ -278,7 +278,10 @@ Definition deinit (s : st) : st := set_hsh (set_tailp (set_headp s None) None) 0
 Definition wipe (s : st) : st := write (write (deinit s) [WDelHead]) [WDelTail].
 
 (** Store.DeleteRange (sequential path) *)
-Definition delete_range (s : st) (script : nat -> N -> hres) (nh : nat) (from to : N)
+(** Store.Sync at quiescence: the queue is empty, the pending batch is written out unconditionally *)
+Definition sync (s : st) : st := fst (flush_one s None).
+
+Definition delete_range_synced (s : st) (script : nat -> N -> hres) (nh : nat) (from to : N)
   : st * list hcall * outcome :=
   match headp s, tailp s with
   | Some hd, Some tl =>
@@ -314,6 +317,11 @@ Definition delete_range (s : st) (script : nat -> N -> hres) (nh : nat) (from to
   | _, _ => (s, [], Fail)
   end.
 
+(** Store.DeleteRange: Sync first (writes the pending batch out), then the deletion proper *)
+Definition delete_range (s : st) (script : nat -> N -> hres) (nh : nat) (from to : N)
+  : st * list hcall * outcome :=
+  delete_range_synced (sync s) script nh from to.
+
 (** ** stop / start *)
 
 Definition stop (s : st) : st * outcome :=
@@ -347,6 +355,7 @@ Definition fresh (s : st) : st :=
 Inductive op :=
 | OAppend (hs : list hdr)
 | ODelete (from to : N) (nh : nat) (fails : list (nat * N * bool))  (* (handler, height, panic?) that fail *)
+| OSync                                                             (* Store.Sync *)
 | ORestart                                                          (* Stop; Start on the same object *)
 | OReopen.                                                          (* Stop; new Store on the datastore; Start *)
 
@@ -360,6 +369,7 @@ Definition step (s : st) (o : op) : st * list hcall * outcome :=
   match o with
   | OAppend hs => let '(s', r) := append s hs in (s', [], r)
   | ODelete from to nh fails => delete_range s (script_of fails) nh from to
+  | OSync => (sync s, [], Ok)
   | ORestart => let '(s1, r) := stop s in
                 match r with Panic => (s1, [], Panic) | _ => (start s1, [], Ok) end
   | OReopen => let '(s1, r) := stop s in
